@@ -52,6 +52,10 @@ Fixpoint kkt_box (eps : R) (lo hi a g : list R) : Prop :=
 Definition lagr_grad (Q : list (list R)) (p w : list R) (b : R) (a : list R) : list R :=
   vsubR (vaddR (mvR Q a) p) (vscaleR b w).
 
+(** the same with two linear equality constraints w1^T a = c1, w2^T a = c2 (multipliers b1, b2): the nu variants *)
+Definition lagr_grad2 (Q : list (list R)) (p w1 w2 : list R) (b1 b2 : R) (a : list R) : list R :=
+  vsubR (vsubR (vaddR (mvR Q a) p) (vscaleR b1 w1)) (vscaleR b2 w2).
+
 (** * SVM duals in the published coefficients *)
 Definition sgn (y : bool) : R := if y then 1 else -1.
 Definition dec_valuesR (K : list (list R)) (a : list R) (rho : R) : list R :=
@@ -118,3 +122,21 @@ Fixpoint oc_conditions (e : R) (a f : list R) : Prop :=
   end.
 Definition oneclass_spec (K : list (list R)) (total : R) (a : list R) (rho e eeq : R) : Prop :=
   Forall (fun x => 0 <= x <= 1) a /\ Rabs (Rsum a - total) <= eeq /\ oc_conditions e a (dec_valuesR K a rho).
+
+(** nu-SVC.  The solver minimises 1/2 alpha^T Q alpha (Q_ij = y_i y_j K_ij) over 0 <= alpha_i <= 1 with the two
+    equality constraints sum_i y_i alpha_i = 0 and sum_i alpha_i = nu n; the multipliers are rho and r.  Published:
+    a_i = y_i alpha_i / r and rho / r.  In the published coefficients: E(a) = 1/2 a^T K a;
+    a_i in [0, cb] (positive class) / [-cb, 0] (negative class) with cb = 1/r; sum_i a_i = 0;
+    sum_i y_i a_i = sum_i |a_i| = nu n / r ([total] = nu n); the multiplier of the first constraint is the published rho,
+    the one of the second is 1 (= r / r), so the Lagrangian gradient is f_i - y_i as for C-SVC with C = 1/r *)
+Definition nusvc_obj (K : list (list R)) (a : list R) : R := / 2 * quadR K a.
+Definition nusvc_spec (K : list (list R)) (y : list bool) (cb total r : R) (a : list R) (rho e eeq enu : R) : Prop :=
+  in_box (svc_lo cb y) (svc_hi cb y) a /\ Rabs (Rsum a) <= eeq /  Rabs (l1R a * r - total) <= enu /  svc_margins cb cb e y a (dec_valuesR K a rho).
+
+(** nu-SVR in b_i = alpha_i - alpha*_i: E0(b) = 1/2 b^T K b - y^T b; |b_i| <= c; sum_i b_i = 0;
+    sum_i |b_i| <= c nu n (= [total]).  The multiplier of the last constraint is the width p of the tube (the
+    solver's -r): p >= 0, and p > 0 only if the constraint is active; the residual conditions are those of
+    epsilon-SVR with loss epsilon p *)
+Definition svr_obj0 (K : list (list R)) (y : list R) (b : list R) : R := qp_obj K (map Ropp y) b.
+Definition nusvr_spec (K : list (list R)) (y : list R) (c total p : R) (b : list R) (rho e eeq enu : R) : Prop :=
+  svr_spec K y c p b rho e eeq /\ - e <= p /\ l1R b <= total + enu /\ (p <= e \/ total - enu <= l1R b).
